@@ -3,7 +3,8 @@ play-state objects built through their constructors.
 
 fourth_card_rule (C04.R6): the fourth card of a trick for every class the winner can depend on - for each trump
 denomination and each suit led, every assignment of {suit led, trump, another suit} to cards 2-4 and every rank order of
-the four cards (ranks only matter through their order within a suit), at tricks 1 and 13: next leader, the side credited,
+the four cards (ranks only matter through their order within a suit - enforced by a pass on order-abstract ranks), at trick 1
+(later tricks: the complete play-outs of playout.py): next leader, the side credited,
 the record, turn and trick number against the Laws.
 
 acceptance_rule (C05.R5 / C11.R2): play_card_by_player of the full-information engine and of the one-seat observer (all
@@ -60,7 +61,9 @@ def fourth_card_rule(chk, rule='C04.R6'):
             classes = [led] + ([trump] if trump not in ('NT', led) else []) + [next(x for x in others if x != trump)]
             for suits in itertools.product(classes, repeat=3):
                 for mode, ranks in [(m_, r_) for m_, rs_ in passes for r_ in rs_]:
-                    for tn, declarer in ((1, 'S'), (13, 'W')) if (mode == 'concrete' and ranks in ranks_sets[::4]) else ((1, 'S'),):
+                    # (trick 1 only: later tricks are reached through the public interface by the complete play-outs, C04.R7 - building a
+                    # mid-play state by hand would depend on how the engine represents it)
+                    for tn, declarer in ((1, 'S'), (1, 'W')) if (mode == 'concrete' and ranks in ranks_sets[::4]) else ((1, 'S'),):
                         n += 1
                         cards = [(ranks[0], led)] + [(r, s) for r, s in zip(ranks[1:], suits)]
                         if len(set(cards)) < 4:
@@ -110,7 +113,7 @@ def fourth_card_rule(chk, rule='C04.R6'):
     if first_bad is None and abstract_error is not None:
         raise AnalysisError(rule, q, f'the trick winner depends on more than the order of the ranks - the rank-order classes do not cover every trick: {abstract_error}')
     chk.require(first_bad is None, rule, w, q, 'fourth card of a trick on every (trump, led suit, suit classes, rank order) class',
-                f'on {n} tricks (3 trump denominations x led suits x suit classes of cards 2-4 x 24 rank orders, tricks 1 and 13) the winner leads next, his side is '
+                f'on {n} tricks (3 trump denominations x led suits x suit classes of cards 2-4 x rank orders incl. the extremes 2 / ace and equal ranks in different suits) the winner leads next, his side is '
                 f'credited once, the trick is recorded with its leader and cards, turn and trick number advance',
                 (f'trump {first_bad[0]}, trick {first_bad[2]} with cards {[str(r) + s for r, s in first_bad[1]]} (in order played): {first_bad[3]}') if first_bad else '')
 
